@@ -39,12 +39,12 @@ vars == <<cfg, plan, step, nsent, q, passed, stale, act>>
 (* msg: [from, kind, good]  good = intact, current connection, produced by `from` *)
 Msg(x, k) == [from |-> x, kind |-> k, good |-> TRUE, why |-> "genuine"]
 
-Init == /\ cfg \in [uniA : {"u"}, uniB : {"u", "v"}, secA : Secrets, secB : Secrets]
+Init == /\ cfg \in [uniA : {"u"}, uniB : {"u", "v", "U"}, secA : Secrets, secB : Secrets]
         /\ plan \in [op : Ops, dir : Ends, idx : 1..3, forgot : BOOLEAN]
         /\ (plan.op = "none" => plan.dir = "A" /\ plan.idx = 1 /\ ~plan.forgot)
         /\ (plan.op # "replayold" => ~plan.forgot)
         /\ (plan.op = "swap" => plan.idx < 3)
-        /\ (cfg.uniB = "v" => plan.op = "none")               \* configuration faults are explored without wire faults
+        /\ (cfg.uniB # "u" => plan.op = "none")               \* configuration faults are explored without wire faults
         /\ (plan.op # "none" => cfg.secA = cfg.secB /\ cfg.secA # "t")
         /\ step = [x \in Ends |-> 1]
         /\ nsent = [x \in Ends |-> 0]
